@@ -61,6 +61,7 @@ def addr_ok(v, width32):
 class C15(PropBase):
     pid = "C15"
     coq_dirs = ["Base", "C15"]
+    translators = []
     bins = ["c15"]
     has_model_driver = False        # two-stage: the model renders from the facts the harness prints (see extra)
     impl_mem_gb = 6
